@@ -3,6 +3,7 @@
 //     scripted in-memory node; observed: rows + final error at the application, requests at the node.
 //   - Iter tier (op `iter`): REAL gocql Iter / nextIter / framer chains for scripted pages (built through
 //     the hook file) consumed with the real Scan, Scanner, MapScan and SliceMap, without a server.
+//
 // Plus AST-level expectations (op `ast`) on the next-page query construction in conn.go executeQuery and
 // on the page-switch code in session.go.
 package main
